@@ -13,7 +13,7 @@ CONSTANTS
   MaxEntries = 1
   Prefixes = {"/upload"}
   Focus = {"A","B","U"}
-  Flips = {FALSE,TRUE}
+  Flips = {FALSE}
   Rounds = "short"
   DSec = 2
 INVARIANT InvEffFunction
